@@ -176,6 +176,7 @@ Proof.
   destruct (find_first (is_topic name) (pa_topics p)); [|split; [apply counters_le_refl|auto]].
   destruct (existsb (uses_topic (t_name t)) (pa_pubs p)); [split; [apply counters_le_refl|auto]|].
   destruct (existsb (uses_topic (t_name t)) (pa_subs p)); [split; [apply counters_le_refl|auto]|].
+  destruct (existsb (fun c => c_rel c =? name) (pa_cfts p)); [split; [apply counters_le_refl|auto]|].
   cbn [fst]. split; [unfold counters_le; cbn; lia|].
   intros x Hx. left. unfold part_handles in *. cbn [pa_h pa_pubs pa_subs pa_topics set_topics] in *.
   destruct Hx as [<-|Hx]; [left; auto|right]. rewrite !in_app_iff in *. destruct Hx as [Hx|[Hx|Hx]]; auto.
